@@ -6,6 +6,7 @@ import (
 	"go/token"
 	"go/types"
 	"math/big"
+	"os"
 	"runtime/debug"
 	"strings"
 
@@ -33,21 +34,21 @@ type deferred struct {
 }
 
 type HarnessCfg struct {
-	Name      string            `json:"name"`      // harness function name
-	Pkg       string            `json:"pkg"`       // import path
-	Unwind    int               `json:"unwind"`    // loop bound
-	MaxDepth  int               `json:"maxdepth"`  // call depth
-	MaxPaths  int               `json:"maxpaths"`  //
-	MaxSteps  int               `json:"maxsteps"`  // per path
-	MapOrder  string            `json:"maporder"`  // "insertion" | "nondet"
-	Stubs     map[string]string `json:"stubs"`     // real function -> harness function (same pkg)
-	Reach     []string          `json:"reach"`     // labels that must be reachable
-	PanicOK   bool              `json:"panic_ok"`  // panics are accepted outcomes
-	TimeoutMs int               `json:"timeout_ms"`
-	Tiers     []string          `json:"tiers"` // tiers in which this harness runs (empty = all)
-	Params    map[string]int    `json:"params"` // harness parameters per tier read through verif_param
-	NoReplay  bool              `json:"noreplay"`
-	SingleThread bool           `json:"single_thread"` // no other goroutine exists: TryLock succeeds iff the executed thread does not hold the lock
+	Name         string            `json:"name"`     // harness function name
+	Pkg          string            `json:"pkg"`      // import path
+	Unwind       int               `json:"unwind"`   // loop bound
+	MaxDepth     int               `json:"maxdepth"` // call depth
+	MaxPaths     int               `json:"maxpaths"` //
+	MaxSteps     int               `json:"maxsteps"` // per path
+	MapOrder     string            `json:"maporder"` // "insertion" | "nondet"
+	Stubs        map[string]string `json:"stubs"`    // real function -> harness function (same pkg)
+	Reach        []string          `json:"reach"`    // labels that must be reachable
+	PanicOK      bool              `json:"panic_ok"` // panics are accepted outcomes
+	TimeoutMs    int               `json:"timeout_ms"`
+	Tiers        []string          `json:"tiers"`  // tiers in which this harness runs (empty = all)
+	Params       map[string]int    `json:"params"` // harness parameters per tier read through verif_param
+	NoReplay     bool              `json:"noreplay"`
+	SingleThread bool              `json:"single_thread"` // no other goroutine exists: TryLock succeeds iff the executed thread does not hold the lock
 }
 
 type Exec struct {
@@ -85,6 +86,7 @@ type Exec struct {
 	interfereFn   *ssa.Function
 	inInterfere   bool
 	opaqueCnt     int
+	boxes         []Value // verif_box table (codec model): deep copies of marshalled values, per path
 	lastNow       *Term
 	callStack     []string
 	abortStack    string
@@ -122,6 +124,7 @@ func (ex *Exec) resetPath(prefix []int) {
 	ex.onceDone = nil
 	ex.inInterfere = false
 	ex.opaqueCnt = 0
+	ex.boxes = nil
 	ex.lastNow = nil
 	ex.callStack = nil
 	ex.abortStack = ""
@@ -272,6 +275,10 @@ func (ex *Exec) ensureInit(pkg *ssa.Package) {
 	}
 	ex.lenient++
 	ex.inInit++
+	if os.Getenv("VERIF_INITPROF") != "" {
+		st0 := ex.steps
+		defer func() { fmt.Fprintf(os.Stderr, "INITPROF %s steps=%d\n", pkg.Pkg.Path(), ex.steps-st0) }()
+	}
 	ex.initStack = append(ex.initStack, pkg)
 	defer func() { ex.initStack = ex.initStack[:len(ex.initStack)-1] }()
 	savedDepth := ex.depth
@@ -305,6 +312,22 @@ func (ex *Exec) ensureInit(pkg *ssa.Package) {
 	ex.lenient--
 	ex.inInit--
 	ex.initState[pkg] = 2
+}
+
+var initDenyPrefixes = []string{
+	"github.com/cosmos/gogoproto/", "github.com/gogo/protobuf/", "github.com/golang/protobuf/", "google.golang.org/protobuf/",
+	"encoding/json", "compress/", "regexp", "text/template", "html/template",
+	"github.com/cosmos/cosmos-sdk/codec/types", "github.com/cosmos/cosmos-sdk/codec/legacy", "github.com/cosmos/cosmos-sdk/types/msgservice",
+	"github.com/tendermint/go-amino", "github.com/prometheus/", "github.com/spf13/", "google.golang.org/grpc",
+}
+
+func initDenied(path string) bool {
+	for _, p := range initDenyPrefixes {
+		if strings.HasPrefix(path, p) {
+			return true
+		}
+	}
+	return false
 }
 
 // ---------- calls ----------
@@ -361,6 +384,23 @@ func (ex *Exec) callFn(fn *ssa.Function, args []Value, env []Value) (result Valu
 	if pm := prefixModel(key); pm != nil {
 		ex.modelsHit[key] = true
 		return pm(ex, fn, args)
+	}
+	if ex.inInit > 0 && fn.Pkg != nil && initDenied(fn.Pkg.Pkg.Path()) {
+		// registration / reflection machinery called from package initialisers (protobuf descriptors, amino, json,
+		// regexp compilation): not executed; its results are unknown values (any later use is reported as inconclusive)
+		n := fn.Signature.Results().Len()
+		why := Unknown{"init-time call not executed: " + key}
+		if n == 0 {
+			return nil
+		}
+		if n == 1 {
+			return why
+		}
+		t := make(Tuple, n)
+		for i := range t {
+			t[i] = why
+		}
+		return t
 	}
 	if fn.Blocks == nil {
 		if fn.Pkg != nil {
@@ -893,6 +933,14 @@ func (ex *Exec) lenientCall(fnv Value, args []Value, cc *ssa.CallCommon) (res Va
 			case unknownUse:
 				ex.depth = savedDepth
 				res = r.u
+			case goPanic:
+				// a package initialiser that really panicked would stop every binary and test at start-up; inside init a
+				// panic is therefore an artefact of an unmodelled callee: the call's result is unknown, init goes on
+				if ex.inInit == 0 {
+					panic(r)
+				}
+				ex.depth = savedDepth
+				res = Unknown{"panic in init callee: " + r.msg}
 			default:
 				panic(r)
 			}
